@@ -125,6 +125,57 @@ theorem block_tx_slice (e : TxEnc) (hdr : BlockHeader) (pre post : List Tx) (x :
   rw [e1, e2]
   exact drop_take_mid _ _ _
 
+/-! ### `PkScriptLocs`: where an output script sits inside `Serialize()` -/
+
+/-- offset of the pkScript of output `o` (preceded by the outputs `pre`) in the witness-encoding serialization -/
+def pkScriptLoc (t : Tx) (pre : List TxOut) (o : TxOut) : Nat :=
+  4 + (if hasWitness t.2 then 2 else 0) + (txIns.enc t.2.1).length + varintSize t.2.2.1.length +
+    (encList txOut pre).length + 8 + varintSize o.2.length
+
+theorem txOuts_enc_split (pre post : List TxOut) (o : TxOut) :
+    txOuts.enc (pre ++ o :: post) =
+      (varintEnc (pre ++ o :: post).length ++ encList txOut pre ++ leBytes 8 o.1 ++ varintEnc o.2.length) ++
+        (o.2 ++ encList txOut post) := by
+  simp only [txOuts, listOf, imap, seqDep, charge, BV.Codec.guard, varint, listN, encList_append, encList,
+    txOut, seq, u64le, uintLE, script, varBytesPooled, bytesN, List.append_assoc]
+
+theorem pkScript_slice (v : Nat) (ins : List TxIn) (pre post : List TxOut) (o : TxOut) (wits : List Witness)
+    (lock : Nat) :
+    let t : Tx := (v, ins, pre ++ o :: post, wits, lock)
+    (((tx .witness).enc t).drop (pkScriptLoc t pre o)).take o.2.length = o.2 := by
+  intro t
+  have hs := txOuts_enc_split pre post o
+  cases hw : hasWitness t.2 with
+  | true =>
+    have e1 : (tx .witness).enc t =
+        (leBytes 4 v ++ [0, 1] ++ txIns.enc ins ++
+          (varintEnc (pre ++ o :: post).length ++ encList txOut pre ++ leBytes 8 o.1 ++ varintEnc o.2.length)) ++
+        (o.2 ++ (encList txOut post ++ (encList witness wits ++ leBytes 4 lock))) := by
+      simp only [tx, charge, BV.Codec.guard, seq, seqDep, txBody, txBodyWitEnc, alt, hw, if_true, txBodyWit, imap,
+        magic, u32le, uintLE, listN, t, hs, List.append_assoc, List.cons_append, List.nil_append]
+    have e2 : pkScriptLoc t pre o =
+        (leBytes 4 v ++ [0, 1] ++ txIns.enc ins ++
+          (varintEnc (pre ++ o :: post).length ++ encList txOut pre ++ leBytes 8 o.1 ++ varintEnc o.2.length)).length := by
+      simp only [pkScriptLoc, hw, if_true, List.length_append, length_leBytes, varintSize_eq, t,
+        List.length_cons, List.length_nil]
+      omega
+    rw [e1, e2]
+    exact drop_take_mid _ _ _
+  | false =>
+    have e1 : (tx .witness).enc t =
+        (leBytes 4 v ++ txIns.enc ins ++
+          (varintEnc (pre ++ o :: post).length ++ encList txOut pre ++ leBytes 8 o.1 ++ varintEnc o.2.length)) ++
+        (o.2 ++ (encList txOut post ++ leBytes 4 lock)) := by
+      simp only [tx, charge, BV.Codec.guard, seq, seqDep, txBody, txBodyWitEnc, alt, hw, if_false,
+        Bool.false_eq_true, txBodyBase, imap, u32le, uintLE, t, hs, List.append_assoc]
+    have e2 : pkScriptLoc t pre o =
+        (leBytes 4 v ++ txIns.enc ins ++
+          (varintEnc (pre ++ o :: post).length ++ encList txOut pre ++ leBytes 8 o.1 ++ varintEnc o.2.length)).length := by
+      simp only [pkScriptLoc, hw, if_false, Bool.false_eq_true, List.length_append, length_leBytes, varintSize_eq, t]
+      omega
+    rw [e1, e2]
+    exact drop_take_mid _ _ _
+
 /-! ### gates -/
 
 /-- the network address carries its timestamp exactly from `NetAddressTimeVersion` on -/
